@@ -3,6 +3,7 @@
 pub mod common;
 pub mod f;
 pub mod r;
+pub mod r0;
 pub mod rmodel;
 
 use serde::{Deserialize, Serialize};
@@ -14,6 +15,7 @@ use crate::{rng::Rng, Outcome, Sched, Tier};
 pub enum Scenario {
     F(f::Scn),
     R(r::Scn),
+    R0(r0::Scn),
 }
 
 #[derive(Clone, Debug, Default)]
@@ -30,6 +32,7 @@ pub fn generate(profile: &str, tier: Tier, seed: u64) -> Scenario {
     match profile {
         "C04" => Scenario::F(f::generate(&mut rng, tier)),
         "C05" | "C06" | "C16" | "C16-huge" | "C17" | "C08" | "C08-obst" => Scenario::R(r::generate(&mut rng, tier, profile)),
+        "C07" => Scenario::R0(r0::generate(&mut rng, tier)),
         other => panic!("unknown profile {}", other),
     }
 }
@@ -38,6 +41,7 @@ pub fn execute(scn: &Scenario, opts: &ExecOpts) -> Outcome {
     match scn {
         Scenario::F(s) => f::execute(s, opts),
         Scenario::R(s) => r::execute(s, opts),
+        Scenario::R0(s) => r0::execute(s, opts),
     }
 }
 
@@ -46,6 +50,7 @@ pub fn shrink(scn: &Scenario) -> Vec<Scenario> {
     match scn {
         Scenario::F(s) => f::shrink(s).into_iter().map(Scenario::F).collect(),
         Scenario::R(s) => r::shrink(s).into_iter().map(Scenario::R).collect(),
+        Scenario::R0(s) => r0::shrink(s).into_iter().map(Scenario::R0).collect(),
     }
 }
 
@@ -53,6 +58,7 @@ pub fn size(scn: &Scenario) -> usize {
     match scn {
         Scenario::F(s) => f::size(s),
         Scenario::R(s) => r::size(s),
+        Scenario::R0(s) => r0::size(s),
     }
 }
 
